@@ -49,6 +49,17 @@ def _pool_configs(tier):
             years = A.Y_B if (kind == "greg" and nd <= 2) else A.Y_S
             days = "boundary" if nd <= 2 else days
         yield kind, rep, ts, zs, nd, years, days
+    if tier == "quick":
+        # the configurations with 3 and 4 deviations on a compact pool (thorough explores them in full above)
+        for kind, rep, ts, zs, nd, years, days in pools.configs(4):
+            if nd >= 3:
+                yield (kind, rep, CORNER_T if ts is pools.T_DEV else [pools.T_WHOLE[0], pools.T_WHOLE[-1]],
+                       CORNER_Z if zs is pools.Z_DEV else zs, nd, CORNER_Y, "small")
+
+
+CORNER_Y = [2000, 2003, -1]
+CORNER_T = pools.T_24 + [["hf", 23, 0.5], ["hmf", 12, 30, 0.3], ["hmsf", 23, 59, 59, 0.999999]]
+CORNER_Z = [[-5, -30], [99, 59]]
 
 
 def units(tier):
@@ -352,7 +363,8 @@ def describe(tier):
     return {
         "rule": "base points x every legal offset (all (h,m) with minutes carrying the hour's sign, 11 999); "
                 "deviation-bounded point pool x 9 destination offsets + to_utc + to_local_time_zone under system-zone "
-                "seams; complete date form x precision-preserving time form x %d literal zone spellings dumps, "
+                "seams (quick: <= 2 deviations in full + the 23 configurations with 3-4 deviations on a compact pool); year-edge "
+                "days of a 14/28-year weekday cycle near midnight; complete date form x precision-preserving time form x %d literal zone spellings dumps, "
                 "decoded by M" % len(ZONE_LITERALS),
         "bounds": {"offsets_all": len(zall()), "dest_offsets_pool": len(DEST_QUICK if tier == "quick" else A.Z_S), "seam_offsets": SEAM_OFFSETS,
                    "deviation_bound_completed": 2 if tier == "quick" else 4, "tolerance_s": 1e-6},
